@@ -83,24 +83,34 @@ Proof. exact deleting_variant_refuted. Qed.
 (* The deposit as the service sees it in production: ContractPayment's cache in front of the
    contract (filled on a miss from the contract's pending state, refreshed by Balance events when
    a settlement is MINED, and — the repair of D29 — set when the settlement is submitted).  For every
-   history of deposits, earnings, forced-settlement requests, pool restarts, withdrawals (back to
-   back ones included) and minings, the wallet is never paid more than it put in and earned, and
-   an immediate repeat of a withdrawal pays nothing; with the event-only refresh of the pinned
-   code the repeat is paid the deposit again. *)
+   history of deposits, earnings, forced-settlement requests, balance reads, pool restarts,
+   withdrawals (back to back ones included), minings, and of other accounts filling the cache up
+   and leaving it again — under no bound (the pinned code) or any bound that drops the entry it
+   cannot store — the wallet is never paid more than it put in and earned, and an immediate repeat
+   of a withdrawal pays nothing; with the event-only refresh of the pinned code the repeat is paid
+   the deposit again, and so it is under a bound that keeps the old entry when the cache is full. *)
 Theorem c07_never_overpaid : forall cfg ops,
-  dc_refresh_on_settle cfg = true -> 0 <= dc_fee cfg ->
+  dc_refresh_on_settle cfg = true -> dc_when_full cfg <> FPKeepOld -> 0 <= dc_fee cfg ->
   let s := drun cfg d0 ops in d_paid s + eff s + d_credit s <= d_in s.
 Proof. exact never_overpaid. Qed.
 Print Assumptions c07_never_overpaid.
 Theorem c07_immediate_repeat_pays_nothing : forall cfg ops,
-  dc_refresh_on_settle cfg = true -> 0 <= dc_fee cfg ->
+  dc_refresh_on_settle cfg = true -> dc_when_full cfg <> FPKeepOld -> 0 <= dc_fee cfg ->
   let s := drun cfg d0 ops in
   0 < snd (dstep cfg s DWithdraw) \/ (snd (dstep cfg s DWithdraw) = 0 /\ d_pending (fst (dstep cfg s DWithdraw)) <> d_pending s) ->
   snd (dstep cfg (fst (dstep cfg s DWithdraw)) DWithdraw) = 0.
 Proof. exact repeat_pays_nothing. Qed.
+Print Assumptions c07_immediate_repeat_pays_nothing.
 Theorem c07_stale_deposit_cache_refuted :
-  let cfg := {| dc_fee := 10; dc_min := None; dc_refresh_on_settle := false |} in
+  let cfg := {| dc_fee := 10; dc_min := None; dc_refresh_on_settle := false; dc_when_full := FPStore |} in
   dpaid cfg d0 [DDeposit 1000000; DEarn 10000; DWithdraw; DWithdraw; DMine; DMine] = [0; 0; 1009990; 999990; 0; 0] /\
-  let cfg' := {| dc_fee := 10; dc_min := None; dc_refresh_on_settle := true |} in
+  let cfg' := {| dc_fee := 10; dc_min := None; dc_refresh_on_settle := true; dc_when_full := FPStore |} in
   dpaid cfg' d0 [DDeposit 1000000; DEarn 10000; DWithdraw; DWithdraw; DMine; DMine] = [0; 0; 1009990; 0; 0; 0].
 Proof. exact stale_cache_pays_twice. Qed.
+Theorem c07_full_cache_keeping_old_entries_refuted :
+  let ops := [DDeposit 1000000; DEarn 10000; DRead; DCrowd true; DWithdraw; DRead; DWithdraw; DMine; DMine] in
+  let run p := dpaid {| dc_fee := 0; dc_min := None; dc_refresh_on_settle := true; dc_when_full := p |} d0 ops in
+  run FPKeepOld = [0; 0; 0; 0; 1010000; 0; 1000000; 0; 0] /\
+  run FPEvict = [0; 0; 0; 0; 1010000; 0; 0; 0; 0] /\
+  run FPStore = [0; 0; 0; 0; 1010000; 0; 0; 0; 0].
+Proof. exact full_cache_keeps_old_pays_twice. Qed.
